@@ -21,7 +21,7 @@ def run_tool(prop, name, tool, args, bound, fail_key, timeout=3600):
         return {'report': {name: {'error': (p.stdout + p.stderr)[-800:], 'label': 'bounded'}}, 'errors': [name]}
     out = {'report': {name: dict(rep, bound=bound, label='bounded')}}
     if rep.get(fail_key):
-        d = os.path.join(VERIF, 'replays', prop)
+        d = os.path.join(os.environ.get('PYVC_OUT') or VERIF, 'replays', prop)
         os.makedirs(d, exist_ok=True)
         rp = os.path.join(d, f'{name}_failing_case.py')
         case = json.dumps(rep[fail_key])
